@@ -1128,11 +1128,40 @@ def namelen(pid):
                 if not c.name.endswith("write_le_u16") or len(c.term["args"]) < 2:
                     continue
                 val = prw.operand(c.term["args"][1])
-                m = re.match(r"^Mul\(Add\((.*),const:1\),const:2\)$", val) or re.match(r"^Mul\(const:2,Add\((.*),const:1\)\)$", val) or re.match(r"^Add\(Mul\((.*),const:2\),const:2\)$", val) \
-                    or re.match(r"^Mul\(Add\(const:1,(.*)\),const:2\)$", val) or re.match(r"^Mul\(const:2,Add\(const:1,(.*)\)\)$", val)
+                PAT = (r"^Mul\(Add\((.*),const:1\),const:2\)$", r"^Mul\(const:2,Add\((.*),const:1\)\)$", r"^Add\(Mul\((.*),const:2\),const:2\)$", r"^Mul\(Add\(const:1,(.*)\),const:2\)$", r"^Mul\(const:2,Add\(const:1,(.*)\)\)$")
+                alts = [(val, None)]
+                al = op_local(c.term["args"][1])
+                mv = re.match(r"^var:(\w+)$", val)
+                if mv:
+                    byname = [l_ for l_, nm_ in w.debug_names().items() if nm_ == mv.group(1)]
+                    al = byname[0] if byname else al
+                if al is not None and len(prw.defs.get(al, [])) > 1:
+                    # `let n = if unallocated { 0 } else { (units + 1) * 2 }`: one verdict per definition
+                    alts = [(prw._def(d, 1, (al,)), d) for d in prw.defs[al]]
+                m = None
+                zero_defs = []
+                for (vv, d) in alts:
+                    mm = None
+                    for rx in PAT:
+                        mm = mm or re.match(rx, vv)
+                    if mm:
+                        m, val = mm, vv
+                    elif vv == "const:0" and d is not None:
+                        zero_defs.append(d)
                 if not m:
                     continue
                 nw += 1
+                # a blank (unallocated) entry has name length 0, and only a blank entry has
+                gw = _guards(ctx, w)
+                blank_ok = False
+                for d in zero_defs:
+                    node = ("t", d[0]) if d[1] == "t" else ("s", d[0], d[1])
+                    if any(re.search(r"obj_type is ObjType::Unallocated$", a) for a in gw.atoms_at(node)):
+                        blank_ok = True
+                    else:
+                        res.fail(Finding(res.rule, "R-NAMELEN/%s/zero-name-length-for-an-allocated-entry" % w.path, "write_to can store a name length of 0 for an entry that is not known to be unallocated: the reopened entry has an empty name", w, c.term["span"]))
+                if not blank_ok:
+                    res.fail(Finding(res.rule, "R-NAMELEN/%s/unallocated-entry-not-blank" % w.path, "write_to stores (units + 1) * 2 as the name length of every entry, so a free directory entry carries a name length of 2: MS-CFB 2.6.3 wants a free entry to be all zeroes except for its three links (defect D24)", w, c.term["span"]))
                 units = m.group(1)
                 if "encode_utf16(" in units or "len_utf16" in units:
                     res.ok({"function": w.path, "line": c.line, "stored_length": val[:100]}, nontrivial=True)
@@ -2428,6 +2457,8 @@ def keepcount(pid):
                         k = m2.group(2) if m2.group(1).startswith("RangeToInclusive") else "Sub(%s,const:1)" % m2.group(2)
                 if k is None:
                     continue
+                # `n.checked_sub(1)` taken on its Some arm is n - 1
+                k = re.sub(r"^(?:ok|some)\((?:<impl \w+>::|\w+::)checked_sub\((.*)\)\)$", r"Sub(\1)", k)
                 atoms = _guards(ctx, f).atoms_at(("t", bb))
                 ns = [re.match(r"^\(Lt\((.*),len\(param:self\.sector_ids\)\)\)$", x) for x in atoms]
                 ns = [x.group(1) for x in ns if x]
@@ -2959,5 +2990,77 @@ def difatlink(pid):
         else:
             res.ok({"function": f.path, "link_written_at_line": once[0].line, "writes_on_the_difat_arm": n_writes}, nontrivial=True)
         res.floor("writes on the Difat arm", n_writes, ctx.table("floors").get("difatlink_writes", 0))
+        return res
+    return run
+
+
+def kindguard(pid):
+    """R-KINDGUARD: a stream's start sector is a mini-sector number when its length is below MINI_STREAM_CUTOFF and a
+    sector number otherwise; nothing else says which.  In the API layer and the stream layer every call that opens or
+    frees a chain as a mini chain (open_mini_chain, free_mini_chain) lies behind `len < MINI_STREAM_CUTOFF`, and
+    every call that opens or frees it as a regular chain (open_chain, free_chain) behind `len >= MINI_STREAM_CUTOFF` -
+    the constant itself, not something that happens to equal it for one version (the sector length is 4096 in
+    version 4 only) or below one boundary (64-byte mini sectors needed <= 64 admits a length of exactly 4096).  When
+    the chain is an existing one (its start sector comes from a directory entry or is passed in), the length compared
+    is that entry's / the one passed with it."""
+    def run(ctx):
+        res = RuleResult("R-KINDGUARD(%s)" % pid, "every open/free of a stream's chain as a mini chain is dominated by `len < MINI_STREAM_CUTOFF`, every open/free as a regular chain by `len >= MINI_STREAM_CUTOFF` (for an existing chain: the length of the entry the start sector came from)")
+        C = "const:MINI_STREAM_CUTOFF"
+        n = 0
+        for f in ctx.fx.fns.values():
+            if not (f.path.startswith("CompoundFile") or f.path.startswith("internal::stream::")):
+                continue
+            v = view(ctx, f)
+            g = pr = None
+            for bb, c in sorted(v.calls.items()):
+                m = re.search(r"MiniAllocator::<F>::(open_mini_chain|free_mini_chain|open_chain|free_chain)$", c.name)
+                if not m or len(c.term["args"]) < 2:
+                    continue
+                g = g or _guards(ctx, f)
+                pr = pr or Prov(f)
+                n += 1
+                mini = "mini" in m.group(1)
+                arg = pr.operand(c.term["args"][1])
+                atoms = g.atoms_at(("t", bb))
+                want = "Lt" if mini else "Ge"
+                xs = []
+                for a in atoms:
+                    mm = re.match(r"^\(%s\((.*),%s\)\)$" % (want, re.escape(C)), a)
+                    if mm:
+                        xs.append(mm.group(1))
+                key = "R-KINDGUARD/%s/%s" % (f.path, m.group(1))
+                if not xs:
+                    other = [a for a in atoms if re.match(r"^\((Lt|Le|Gt|Ge)\(", a) and ("stream_len" in a or "CUTOFF" in a or "sector_len" in a or "SECTOR_LEN" in a)][:2]
+                    if not other:
+                        # the decision was made where this function cannot see it (a flag returned by a closure or a
+                        # helper that was not inlined): no verdict here; R-CUTOFF still judges the comparison itself
+                        res.ok({"function": f.path, "line": c.line, "call": m.group(1), "note": "the kind is decided by a value computed elsewhere: no verdict"})
+                        continue
+                    res.fail(Finding(res.rule, key + "/not-behind-the-cutoff-test", "%s() is not dominated by a comparison `len %s MINI_STREAM_CUTOFF`%s: whether a start sector is a mini-sector number or a sector number is decided by that comparison and nothing else (another bound agrees with it for one version or away from 4096 only)" % (m.group(1), "<" if mini else ">=", (" (it lies behind %s)" % "; ".join(x[:80] for x in other)) if other else ""), f, c.term["span"]))
+                    continue
+                if arg.startswith("const:"):
+                    res.ok({"function": f.path, "line": c.line, "call": m.group(1), "new_chain": True, "behind": xs[0][:60]}, nontrivial=True)
+                    continue
+                # an existing chain: the compared length belongs to the same entry / parameter set
+                if arg.endswith(".start_sector"):
+                    wanted = arg[:-len(".start_sector")] + ".stream_len"
+                elif re.match(r"^param:\w*start_sector\w*$", arg):
+                    wanted = None
+                else:
+                    wanted = None
+                # ... and that entry IS a stream: a handle may outlive its stream, and the slot may since hold a
+                # storage (whose start-sector and size fields mean nothing) - `not Unallocated` is not enough
+                if arg.endswith(".start_sector"):
+                    base = arg[:-len(".start_sector")]
+                    from prov import prov_eq as _peq2
+                    if not any(a_.endswith(".obj_type is ObjType::Stream") and _peq2(base, a_[:-len(".obj_type is ObjType::Stream")]) for a_ in atoms):
+                        res.fail(Finding(res.rule, key + "/entry-not-known-to-be-a-stream", "%s(%s) is not dominated by a test that found the entry to BE a stream: a handle that outlived its stream (the slot re-used by a storage) would read or free that entry's start sector as a chain" % (m.group(1), arg[-60:]), f, c.term["span"]))
+                        continue
+                from prov import prov_eq as _peq
+                if wanted is not None and not any(_peq(wanted, x_) for x_ in xs):
+                    res.fail(Finding(res.rule, key + "/length-of-another-object", "%s(%s) lies behind `%s %s MINI_STREAM_CUTOFF`, which is not the length of the entry the start sector was taken from" % (m.group(1), arg[-60:], xs[0][-60:], "<" if mini else ">="), f, c.term["span"]))
+                else:
+                    res.ok({"function": f.path, "line": c.line, "call": m.group(1), "behind": (wanted or xs[0])[-60:]}, nontrivial=True)
+        res.floor("chain-kind decisions", n, ctx.table("floors").get("kindguard_sites", 0))
         return res
     return run
